@@ -174,7 +174,18 @@ pub(super) fn generate_parser_actions(generator: &ParserGenerator) -> Result<()>
             if !type_names.contains(&nonterminal.name) {
                 log!("Creating types for non-terminal '{}'.", nonterminal.name);
                 for ty in actions_generator.nonterminal_types(nonterminal, generator.settings) {
-                    ast.items.push(ty);
+                    // A non-terminal may need several types (e.g. a struct
+                    // for each choice). Those still present in the file must
+                    // not be defined again.
+                    let exists = match &ty {
+                        syn::Item::Enum(e) => type_names.contains(&e.ident.to_string()),
+                        syn::Item::Struct(e) => type_names.contains(&e.ident.to_string()),
+                        syn::Item::Type(e) => type_names.contains(&e.ident.to_string()),
+                        _ => false,
+                    };
+                    if !exists {
+                        ast.items.push(ty);
+                    }
                 }
             }
 
